@@ -127,8 +127,23 @@ Theorem chan_e3_runs_are_runs :
 Proof. exact chan_e3step_reach. Qed.
 Print Assumptions chan_e3_runs_are_runs.
 
-(* NOT proved in Coq (notes/C07.md "Partial"): C07_Chan_Proofs.chan_no_lost_wakeup_statement (no reachable state of
-   the channel protocol is a lost wake-up, consumers and senders) — checked instead by the oracle after every step
-   of the real code's log on exhaustive small schedules — and C07_Chan_Proofs.batch_q_statement (batch queue). *)
-Definition chan_no_lost_wakeup_unproved : Prop := chan_no_lost_wakeup_statement.
+(* RingChannel, consumer side — the property's "never left non-empty with every consumer asleep": in EVERY reachable
+   state of the protocol model (any number of participants, any scripts of sends/recvs, any interleaving, any pattern
+   of semaphore time-outs) it is not the case that the queue is non-empty, queue_sem holds no token, some consumer is
+   blocked in queue_sem.wait and every participant inside an operation is such a blocked consumer. *)
+Theorem chan_no_lost_wakeup :
+  forall cap Y scripts st, Z.of_nat (length scripts) + 1 < W64 ->
+  creach cap Y (chan_init scripts) st -> lost_wakeup_recv (length scripts) st = false.
+Proof. exact chan_no_lost_wakeup_recv. Qed.
+Print Assumptions chan_no_lost_wakeup.
+
+(* RingChannel, sender side — "a producer blocked on a full queue is likewise notified": never (queue has room, send_sem
+   holds no token, some sender blocked in send_sem.wait, every participant inside an operation is such a sender). *)
+Theorem chan_no_lost_wakeup_sender :
+  forall cap Y scripts st, 0 <= cap -> Z.of_nat (length scripts) + 1 < W64 ->
+  creach cap Y (chan_init scripts) st -> lost_wakeup_send cap (length scripts) st = false.
+Proof. exact chan_no_lost_wakeup_send. Qed.
+Print Assumptions chan_no_lost_wakeup_sender.
+
+(* NOT proved in Coq (notes/C07.md "Partial"): C07_Chan_Proofs.batch_q_statement (batch queue). *)
 Definition batch_q_unproved : Prop := batch_q_statement.
